@@ -34,3 +34,51 @@ PROFILES = [
 FILES = {
     "CodeFormatInfix": {"imports": ["FlVerif.Op.PyExtWave5Z", "FlVerif.Gen.CodeFactory"]},
 }
+
+# ---------------------------------------------------------------- the renderings of `Function.Node`
+# `str` = the meaning of `Op.str(<float>)` (`C14.code_opStr`: the number printed with `settings.decimals` digits): any function.
+STR = [("str", "X Rat → String")]
+NODE_ATTRS = [
+    ("_0.element", "{0}.element", "Option Lang.Elem", True, ["Py.Node"]),
+    ("_0.variable", "{0}.variable_", "String", True, ["Py.Node"]),
+    ("np.isnan(_0.constant)", "(X.isnan {0}.constant)", "Bool", True, ["Py.Node"]),
+    ("Op.str(_0.constant)", "(str {0}.constant)", "String", True, ["Py.Node"]),
+    ("_0.left", "{0}.left", "Option Py.Node", True, ["Py.Node"]),
+    ("_0.right", "{0}.right", "Option Py.Node", True, ["Py.Node"]),
+    ("_0.name", "{0}.name", "String", True, ["Lang.Elem"]),
+    # the method translated first
+    ("_0.value()", "(Node_value.run str {0} {{}} >>= fun r => Py.deref r.ret)", "String", False, ["Py.Node"]),
+    ("' '.join(_0)", "(Py.joinSp {0})", "String", True, ["List String"]),
+]
+
+
+def rendering(method, extra_locals=None, extra_ext=None):
+    """`Node.prefix / infix / postfix (self, node=None)`: recursive over the tree (`self.<method>(child)`); the first call
+    passes `None` and restarts on `self`, so the depth is at most the height of the tree plus one"""
+    return {
+        "name": f"Node_{method}", "module": "fuzzylite.term", "object": f"Function.Node.{method}", "file": "CodeNodeText",
+        "params": STR + [("self", "Py.Node"), ("node", "Option Py.Node")],
+        "rec_fixed": ["str", "self"], "self_call": f"self.{method}(_0)",
+        "rec_fuel": "Py.FunEval.heightO node + Py.FunEval.height self + 1",
+        "locals": dict({"result": "List String"}, **(extra_locals or {})),
+        "ret": "String",
+        "externals": NODE_ATTRS + (extra_ext or []),
+    }
+
+
+PROFILES += [
+    {
+        "name": "Node_value", "module": "fuzzylite.term", "object": "Function.Node.value", "file": "CodeNodeText",
+        "params": STR + [("self", "Py.Node")], "locals": {}, "ret": "String",
+        "externals": NODE_ATTRS[:1] + NODE_ATTRS[1:2] + NODE_ATTRS[3:4] + NODE_ATTRS[6:7],
+    },
+    rendering("prefix"),
+    rendering("infix", {"children": "List String", "is_function": "Bool", "result": "String"}, [
+        # `Element.type` has the two values Operator / Function; the table keeps the flag `isOp`
+        ("_0.type == Function.Element.Type.Function", "(!{0}.isOp)", "Bool", True, ["Lang.Elem"]),
+        ("_0.join(_1)", "({0}.intercalate {1})", "String", True, ["String", "List String"]),
+    ]),
+    rendering("postfix"),
+]
+
+FILES["CodeNodeText"] = {"imports": ["FlVerif.Op.PyExtFunEval"]}
